@@ -2,6 +2,7 @@
 from __future__ import annotations
 
 import hashlib
+import os
 import json
 import random
 import time
@@ -131,10 +132,18 @@ class Stepper:
             except Exception as e:  # noqa: BLE001
                 import traceback
 
-                raise env.HarnessError(
-                    f"oracle {type(o).__name__} crashed at step {i} on "
-                    f"{ops.op_brief(op)[:200]}: {traceback.format_exc()[-1500:]}"
-                )
+                tb = traceback.extract_tb(e.__traceback__)
+                if tb and os.path.realpath(tb[-1].filename).startswith(env.REPO_ROOT + os.sep):
+                    # the exception was raised INSIDE the code under test, in a call
+                    # the oracle makes on values the sequence accepted (fall times,
+                    # modulation, sampling): that is the code's failure, not the harness'
+                    pid = getattr(o, "prefix", type(o).__name__ + "/").split("/")[0]
+                    vs = [(f"{pid}/sut-call-raised", f"{type(e).__name__}: {str(e)[:120]} raised by {os.path.basename(tb[-1].filename)}:{tb[-1].name} while the oracle examined the state after {op['op']}")]
+                else:
+                    raise env.HarnessError(
+                        f"oracle {type(o).__name__} crashed at step {i} on "
+                        f"{ops.op_brief(op)[:200]}: {traceback.format_exc()[-1500:]}"
+                    )
             for oid, msg in vs or ():
                 self._record(oid, i, msg)
         self.h.update(
